@@ -73,6 +73,9 @@ def opt(n):
     return "" if n is None else " %d" % n
 
 
+NEUTRAL_MODES = ["set -u", "set -E", "set -T", "set -f", "set -C", "set -h", "set +h", "set +B", "set -o physical",
+                 "shopt -s extglob", "shopt -s nullglob", "shopt -s nocasematch", "shopt -s expand_aliases", "shopt -s globstar",
+                 "shopt -u sourcepath", "set -a", "set -o vi", "set -o emacs", "shopt -s checkwinsize", "set -o posix"]
 COMPOUND_KINDS = ("I", "J", "W", "U", "F", "G", "C", "Gr", "Su", "K")
 
 
@@ -190,6 +193,10 @@ def render(prog, prelude=True, raw_esac=False, fd3=False, deco=None, deco_nl=Tru
         ind["deco"] = _random.Random(deco)
         ind["deco_nl"] = deco_nl
     out = (PRELUDE3 if fd3 else PRELUDE) if prelude else ""
+    if deco is not None and ind["deco"].random() < 0.4:
+        # a shell mode that must not matter to these programs (they use no unset parameter, no glob, no alias, no
+        # trap of their own): same program, same models — other option-dependent paths through brush
+        out += ind["deco"].choice(NEUTRAL_MODES) + "\n"
     for i, body in enumerate(funcs):
         if deco is not None and ind["deco"].random() < 0.3:
             out += "function f%d { %s; }\n" % (i, r_list(body, ind))
